@@ -101,7 +101,7 @@ def main():
         machinery.append("valgrind pass produced no summary (exit %d): %s" % (vg.returncode, vg.stderr[-500:]))
     c = summary["counters"]
     universes = c.get("universes", 0)
-    programs = c.get("container_programs_SolvableId", 0) + c.get("container_programs_String", 0) + c.get("string_programs", 0)
+    programs = c.get("container_programs_SolvableId", 0) + c.get("container_programs_String", 0) + c.get("container_programs_StdString", 0) + c.get("string_programs", 0)
     ev = {
         "property_id": "C17",
         "tier": tier,
@@ -113,7 +113,7 @@ def main():
             "traces_validated_against_impl": c.get("solves_through_cpp_bridge", 0) + programs,
             "evaluations": c.get("solves_through_cpp_bridge", 0) + programs,
             "distinct_nontrivial": universes + programs,
-            "rule": "every universe of F3 (<=1/2 decorations), a slice of F1 and F5 (soft) that the C++ interface can express is flattened to a table and solved (a) through resolvo::solve with a table-driven C++ DependencyProvider under 6 ways of building the returned vectors (exact, grown, shared, detached, cleared+refilled, reused scratch vector with capacity > size; with and without a pre-filled result vector) and (b) through the Rust API; solution vector and error text must be identical, no Rust-side allocation may survive a solve, every block must be freed with the layout it was allocated with (checking global allocator), ASan/UBSan/LSan silent; plus every sequence of container operations of the stated depth on Vector<SolvableId>/Vector<String> with 2 handles against std::vector, String operations against std::string, and sizeof/alignof/offsetof of all boundary structs compared between Rust and C++; a reduced pass of the same program runs under valgrind memcheck; non-trivial = every distinct universe / container program",
+            "rule": "every universe of F3 (<=1/2 decorations), a slice of F1 and F5 (soft) that the C++ interface can express is flattened to a table and solved (a) through resolvo::solve with a table-driven C++ DependencyProvider under 6 ways of building the returned vectors (exact, grown, shared, detached, cleared+refilled, reused scratch vector with capacity > size; with and without a pre-filled result vector) and (b) through the Rust API; solution vector and error text must be identical, no Rust-side allocation may survive a solve, every block must be freed with the layout it was allocated with (checking global allocator), ASan/UBSan/LSan silent; plus every sequence of container operations of the stated depth on Vector<SolvableId>/Vector<String>/Vector<std::string> with 2 handles against std::vector, String operations against std::string, and sizeof/alignof/offsetof of all boundary structs compared between Rust and C++; a reduced pass of the same program runs under valgrind memcheck; non-trivial = every distinct universe / container program",
             "samples": summary.get("samples", [])[:4] or ["(no sample)"],
             "exhaustive": tier == "thorough",
             "counters": c,
